@@ -1,0 +1,27 @@
+//go:build verif
+// +build verif
+
+package transporttrie
+
+// Verification hooks (build tag "verif"). Add-only; not compiled into normal builds.
+
+type VerifNode struct {
+	Name     []byte
+	Value    uint64
+	Children []*VerifNode
+}
+
+func verifDump(n *trieNode) *VerifNode {
+	r := &VerifNode{Name: append([]byte{}, n.name...), Value: n.value}
+	for _, c := range n.children {
+		r.Children = append(r.Children, verifDump(c))
+	}
+	return r
+}
+
+// VerifDump returns a deep copy of the trie's structure.
+func (t *Trie) VerifDump() *VerifNode {
+	t.mutex.Lock()
+	defer t.mutex.Unlock()
+	return verifDump(t.root)
+}
